@@ -14,8 +14,9 @@ from vlib.runner import Violation
 
 PROPERTY_ID = "C16"
 LEVEL = "exploration"
-RULE = ("Record ids: Hypothesis lists of 1-8 (id, name) pairs built by construction from a few stems and then "
-        "shuffled: fresh short ids, exact duplicates, the same id with illegal characters inserted or removed, "
+RULE = ("Record ids: Hypothesis lists of 1-12 (id, name) pairs built by construction from a few stems and then "
+        "shuffled (2 of 5 cases may contain illegal characters, 1 of 4 contig numbers of six or more digits): "
+        "fresh short ids, exact duplicates, the same id with illegal characters inserted or removed, "
         "ids equal to another record's de-duplicated form (x_0), ids longer than 16 sharing the first 7/12/16 "
         "characters, ids equal to another record's shortened form (cNNNNN_xxxxxxx.. / first 12 chars + _0), "
         "versioned accessions and their unversioned prefix, contig/scaffold/' cN ' numbers with 1-8 digits, ids "
@@ -403,7 +404,7 @@ def _genes_by_adding(spec: dict, features: list, classes: list, guard_possible: 
         if cds.get_name() != name_before:
             renamed += 1
             if not is_dup:
-                raise Violation("gene_renamed_without_duplicate", {"before": name_before, "after": cds.get_name()})
+                classes.append("renamed_without_duplicate")     # measured, not asserted by the statement
         seen_names.add(cds.get_name())
         seen_locs.add(_loc_key(feature))
         _judge_final_genes(record, len(accepted), "add")
@@ -457,7 +458,7 @@ def _genes_by_conversion(spec: dict, features: list, duplicate: bool, classes: l
     model = sorted(_input_name(f, "biopython") for f in features if f["type"] == "CDS")
     if names != model:
         if not duplicate:
-            raise Violation("gene_renamed_without_duplicate", {"names": names, "model": model})
+            classes.append("renamed_without_duplicate")         # measured, not asserted by the statement
         return "out_renamed"
     return "out_plain"
 
@@ -666,11 +667,15 @@ def id_list_specs(draw, emphasis: str = "collide"):
     return {"records": records, "long": allow_long}
 
 
-def enum_record_lists():
-    """ all ordered lists of 1-3 ids from a small pool of mutually colliding forms, both settings """
+def enum_record_lists(with_quadruples: bool = False):
+    """ all ordered lists of 1-3 ids from a small pool of mutually colliding forms, both settings
+        (thorough: also all ordered lists of 4 from a pool of 9) """
     pool = ["ab", "a:b", "a b", "ab_0", "a:b_0", ":",
             "abcdefghijklmnopq", "abcdefghijklmnopr", "abcdefg:hijklmnopq", "abcdefghijkl_0", "c00001_abcdefg..",
-            "c00002_abcdefg..", "NZ_AMZN01000079.1", "NZ_AMZN01000079", "NZ_AMZN:01000079.1"]
+            "c00002_abcdefg..", "NZ_AMZN01000079.1", "NZ_AMZN01000079", "NZ_AMZN:01000079.1",
+            "abcdefghij_contig2-x", "abcdefghij_contig2-y"]
+    small = ["x", "x_0", "x_0_0", "x:", "abcdefghijklmnopq", "abcdefghijkl_0", "abcdefghijkl_1", "c00001_abcdefg..",
+             "c00004_abcdefg.."]
 
     def cases():
         for allow_long in (False, True):
@@ -682,6 +687,11 @@ def enum_record_lists():
                     for third in pool:
                         yield {"records": [{"id": i, "name": i} for i in (first, second, third)],
                                "long": allow_long}
+        if with_quadruples:
+            import itertools
+            for allow_long in (False, True):
+                for combo in itertools.product(small, repeat=4):
+                    yield {"records": [{"id": i, "name": i} for i in combo], "long": allow_long}
     return cases
 
 
@@ -767,8 +777,8 @@ def gene_specs(draw):
 
 def run(ctx) -> None:
     shards = ctx.pick(4, 16)
-    ctx.enum("records_enum", enum_record_lists(), shards=ctx.pick(8, 16))
+    ctx.enum("records_enum", enum_record_lists(ctx.thorough), shards=ctx.pick(8, 16))
     ctx.enum("length_enum", enum_lengths(), shards=ctx.pick(4, 8))
-    ctx.hyp("records", id_list_specs("collide"), max_examples=ctx.pick(4000, 80000), shards=shards)
-    ctx.hyp("length", id_list_specs("length"), max_examples=ctx.pick(2000, 40000), shards=shards)
-    ctx.hyp("genes", gene_specs(), max_examples=ctx.pick(2500, 50000), shards=shards)
+    ctx.hyp("records", id_list_specs("collide"), max_examples=ctx.pick(3000, 60000), shards=shards)
+    ctx.hyp("length", id_list_specs("length"), max_examples=ctx.pick(1500, 30000), shards=shards)
+    ctx.hyp("genes", gene_specs(), max_examples=ctx.pick(2000, 40000), shards=shards)
